@@ -219,6 +219,9 @@ func Explore(cfg *Config) (*Report, error) {
 				}
 				p := m.runPath(w, func() { m.Call(fn) })
 				rep.Paths++
+				if os.Getenv("SYMGO_DUMP_PATHS") != "" {
+					fmt.Fprintf(os.Stderr, "PATH %s %s\n", p.End, decisionString(p.taken))
+				}
 				rep.Steps += m.Steps
 				rep.Assumes += int64(p.assumes)
 				rep.Decisions += int64(len(p.taken))
@@ -432,13 +435,22 @@ func (m *Machine) runPath(w Work, entry func()) (p *Path) {
 	m.S.Reset()
 	m.S.Push()
 	defer func() {
+		r := recover()
+		m.killGoroutines()
 		m.undoAll()
 		m.path = nil
-		if r := recover(); r != nil {
+		if r != nil {
 			switch r := r.(type) {
 			case abort:
 				p.End = r.kind
-				if r.kind != "infeasible" && r.kind != "violation" {
+				switch {
+				case r.kind == "deadlock" || (r.kind == "crash" && !strings.HasPrefix(r.msg, "abort:")):
+					m.path = p
+					m.recordViolation(r.kind+": "+r.msg, p.model, "")
+					m.path = nil
+				case r.kind == "crash":
+					p.Inconclusive = append(p.Inconclusive, strings.TrimPrefix(r.msg, "abort:"))
+				case r.kind != "infeasible" && r.kind != "violation":
 					p.Inconclusive = append(p.Inconclusive, r.kind+": "+r.msg)
 				}
 			case targetPanic:
